@@ -55,9 +55,9 @@ type sys struct {
 	apiMust     bool // an API start succeeded and nothing can have made the server forget it
 	retry       int
 	autoStop    int
-	mayCount    int   // attempts since the last API start / stop / kick / auto stop
-	lalCount    int   // attempts since the last stop (the server's own way of counting)
-	lastPresent int64 // ms: last instant a consumer was present
+	mayCount    int            // attempts since the last API start / stop / kick / auto stop
+	lalCount    int            // attempts since the last stop (the server's own way of counting)
+	lastPresent int64          // ms: last instant a consumer was present
 	dialSession map[int]string // attempt -> session id the API reported for it
 	seenDials   int
 	orphanTicks map[int]int
@@ -620,7 +620,7 @@ func main() {
 		states += st.States
 		trans += st.Transitions
 		execs += st.Executions
-		per[c.Name] = map[string]interface{}{"states": st.States, "transitions": st.Transitions, "depth_completed": st.MaxDepthCompleted, "frontier": st.Frontier}
+		per[c.Name] = map[string]interface{}{"states": st.States, "transitions": st.Transitions, "depth_completed": st.MaxDepthCompleted, "frontier": st.Frontier, "executions_repeated_after_infra_error": st.Retried}
 		if st.Capped {
 			r.NotExhaustive("internal time budget hit before the depth bound")
 		}
